@@ -6,6 +6,7 @@ import Model.Codec
 import Model.Transcript
 import Model.Batch
 import Model.Ctors
+import Model.Gens
 open Model Model.Wire
 
 /-- build the statement-side instance from generator basis ids -/
@@ -153,6 +154,23 @@ def cmdEvents (m : List (String × String)) : Option String := do
     else fullEvents ctx x A lrs a1 b r1 s1 d1
   pure s!"ev={",".intercalate ((evs.drop ctx.length).map strOfEv)}"
 
+def kindOf (s : String) : Option Gens.Kind := if s == "G" then some .G else if s == "H" then some .H else none
+
+def cmdGenblock (m : List (String × String)) : Option String := do
+  let k ← kindOf (← get m "kind")
+  let party ← (← get m "party").toNat?
+  let idx ← (← get m "idx").toNat?
+  pure s!"label={bytesToHex (Gens.chainLabel k party)} offset={Gens.chainOffset idx}"
+
+def cmdTableorder (m : List (String × String)) : Option String := do
+  let bits ← (← get m "bits").toNat?
+  let cap ← (← get m "cap").toNat?
+  let gs := Gens.tableOrder bits cap
+  pure s!"order={",".intercalate (gs.map (fun g => s!"{bytesToHex (Gens.chainLabel g.kind g.party)}.{Gens.chainOffset g.idx}"))}"
+
+def cmdPedlabels (_ : List (String × String)) : Option String :=
+  some s!"labels={",".intercalate ((List.range 6).map (fun k => bytesToHex (Gens.pedersenLabel k)))}"
+
 def okerr (b : Bool) : String := if b then "ok" else "err"
 
 def cmdCtor (m : List (String × String)) : Option String := do
@@ -189,6 +207,9 @@ def step (line : String) : String :=
       | "ctor" => cmdCtor m
       | "guards" => cmdGuards m
       | "events" => cmdEvents m
+      | "genblock" => cmdGenblock m
+      | "tableorder" => cmdTableorder m
+      | "pedlabels" => cmdPedlabels m
       | _ => none
     match r with
     | some s => s
